@@ -19,7 +19,7 @@ SPEC_MODE = "spec"
 KEEP_PREFIX = 0
 SIZES = {"quick": 8000, "thorough": 60000}
 BATCH = 4000
-RULE = ("12 % of the cases carry a segment on a scripted handler (ds.custom: converter nil/ok/err/panic x updater ok/err/panic, panic values error/string/nil-deref); deliveries go through a datasource.Base from one reused buffer (ds.deliver) or directly to the handler (ds.handle), mixed; (plus real-file event sequences: 5 corpus + 4 random in quick, 60 random in thorough) payload sequences (3-12 deliveries on one or two of the five modules, fresh handlers and cleared managers per case); payloads are "
+RULE = ("10 % of the modules in a case use the real updater behind a value-slice or wrongly typed converter (ds.mode), Base add/remove handler ops; 12 % of the cases carry a segment on a scripted handler (ds.custom: converter nil/ok/err/panic x updater ok/err/panic, panic values error/string/nil-deref); deliveries go through a datasource.Base from one reused buffer (ds.deliver) or directly to the handler (ds.handle), mixed; (plus real-file event sequences: 5 corpus + 4 random in quick, 60 random in thorough) payload sequences (3-12 deliveries on one or two of the five modules, fresh handlers and cleared managers per case); payloads are "
         "encoded from rule values by an independent tag-driven encoder (shuffled/omitted/null/duplicate/unknown keys, boundary numbers, out-of-range "
         "and wrongly typed values), plus null elements, empty/null/[]/whitespace, truncations, garbage, exact redeliveries, A-B-A, valid-after-invalid, "
         "same rule under another id / threshold within 1e-8 / signed zero, same-length payloads differing in one digit; non-trivial = some delivery put rules in force AND the case contains a "
@@ -220,8 +220,13 @@ def gen_case(rng, cid):
     via_base = rng.random() < 0.5       # the case's usual way of delivering; mixed with the other one
     hist = {m: [] for m in MODS}        # payload texts delivered per module
     lastvals = {m: None for m in MODS}
+    for m in dict.fromkeys(mods):
+        if rng.random() < 0.10:            # the real updater behind a value-slice / wrongly typed converter
+            ops.append(f"ds.mode {m} {rng.choice(['val', 'val', 'bad'])}")
     for _ in range(rng.randint(3, 12)):
         m = rng.choice(mods)
+        if rng.random() < 0.03:
+            ops.append(f"{rng.choice(['base.remove', 'base.add'])} {m}")
         r = rng.random()
         if r < 0.50 or not hist[m]:
             n = rng.choice([1, 1, 1, 2, 2, 3, 4])
